@@ -276,7 +276,8 @@ func (vc *VC) typeInv(x Term, t types.Type) Term {
 	case "slice":
 		return vc.sliceInv(x)
 	case "str":
-		return vc.le(vc.idxLit(0), vc.strLen(x), true)
+		// like slices, strings stay far below 2^62 bytes
+		return And(vc.le(vc.idxLit(0), vc.strLen(x), true), vc.le(vc.strLen(x), vc.intLit(new(big.Int).Lsh(big.NewInt(1), 40), 64), true))
 	case "struct":
 		var cs []Term
 		for i := 0; i < ti.st.NumFields(); i++ {
@@ -406,6 +407,21 @@ func (vc *VC) elem(base, idx Term) Term {
 	return App(SRef, "elem", base, idx)
 }
 
+// ix is offset addition for element addresses. It is an uninterpreted function with the
+// defining axiom ix(a,b) = a+b (pattern ix(a,b)): quantifier triggers that mention an element
+// address then contain no interpreted arithmetic, which E-matching handles poorly.
+func (vc *VC) ix(off, i Term) Term {
+	if off.S == vc.idxLit(0).S {
+		return i
+	}
+	return App(vc.idxSort(), "ix_", off, i)
+}
+
+// elemAt: the cell of element i of a slice with backing array arr and offset off.
+func (vc *VC) elemAt(arr, off, i Term) Term {
+	return vc.elem(arr, vc.ix(off, i))
+}
+
 // zero value of a type
 func (vc *VC) zero(t types.Type) Term {
 	ti := vc.info(t)
@@ -452,5 +468,14 @@ func (vc *VC) preamble() string {
 	b.WriteString("(define-fun-rec root ((r Ref)) Int (ite ((_ is obj) r) (oid r) (ite ((_ is fld) r) (root (fbase r)) (ite ((_ is elem) r) (root (ebase r)) (ite ((_ is glob) r) (- (- 2) (gid r)) (- 1))))))\n")
 	fmt.Fprintf(&b, "(declare-fun addr_of (Ref) %s)\n", vc.intSort(64))
 	fmt.Fprintf(&b, "(declare-fun ptr_of (%s) Ref)\n", vc.intSort(64))
+	fmt.Fprintf(&b, "(declare-fun ix_ (%s %s) %s)\n", idx, idx, idx)
+	plus := "+"
+	if vc.mode == ModeBV {
+		plus = "bvadd"
+	}
+	fmt.Fprintf(&b, "(assert (forall ((a %s) (b %s)) (! (= (ix_ a b) (%s a b)) :pattern ((ix_ a b)))))\n", idx, idx, plus)
+	// addresses are injective and only nil has address 0
+	b.WriteString("(assert (forall ((r Ref)) (! (= (ptr_of (addr_of r)) r) :pattern ((addr_of r)))))\n")
+	fmt.Fprintf(&b, "(assert (forall ((r Ref)) (! (= (= (addr_of r) %s) (= r null)) :pattern ((addr_of r)))))\n", vc.intLit(bigZero, 64).S)
 	return b.String()
 }
